@@ -28,3 +28,4 @@ for clause, (i, d) in sorted(ex.items()):
     for op in small['ops']: print('   ', json.dumps(op))
     print('skeleton', K.skeleton(small))
     for l in out.log: print('   |', l)
+    for v in out.violations: print('   >>', v[0], str(v[2])[:600])
